@@ -337,3 +337,92 @@ benign('B-commit-push-before-state-commit', ['C02', 'C03'], [
 benign('B-delete-install-asserts', ['C02', 'C04'], [
     (S, "        assert!(results.is_empty(), \"ordered commit outcomes may only be installed once\");\n", ""),
 ])
+
+PS = 'src/parallel_state.rs'
+mutant('T1-storage-cleared-before-status-flip', ['C10'], [
+    (PS, "                let transition = self.get_account_mut(address).selfdestruct();\n                self.storage.remove(&address);\n                return transition;", "                self.storage.remove(&address);\n                return self.get_account_mut(address).selfdestruct();"),
+], ['|T1|'])
+mutant('T1-reader-does-not-recheck', ['C10'], [
+    (PS, "            let value = if is_storage_known() { U256::ZERO } else { value };\n", ""),
+], ['|T1|'])
+mutant('D4-drop-storage-remove-on-create', ['C10'], [
+    (PS, "                    self.get_account_mut(address).newly_created(info.clone(), changed_storage);\n                self.storage.remove(&address);", "                    self.get_account_mut(address).newly_created(info.clone(), changed_storage);"),
+], ['|D4|'])
+mutant('SIB-selfdestruct-storage-not-destroyed', ['C10'], [
+    (PS, "                previous_info,\n                previous_status,\n                storage: Default::default(),\n                storage_was_destroyed: true,\n            })\n        }\n    }\n\n    /// Newly created account.", "                previous_info,\n                previous_status,\n                storage: Default::default(),\n                storage_was_destroyed: false,\n            })\n        }\n    }\n\n    /// Newly created account."),
+], ['|SIB|'])
+mutant('SIB-empty-touch-early-none-set', ['C10'], [
+    (PS, "            AccountStatus::LoadedNotExisting |\n                AccountStatus::Destroyed |\n                AccountStatus::DestroyedAgain\n", "            AccountStatus::LoadedNotExisting | AccountStatus::Destroyed\n"),
+], ['|SIB|'])
+mutant('SIB-created-before-selfdestructed', ['C10'], [
+    (PS, "            if is_destructed {\n", "            if is_destructed && !is_created {\n"),
+], ['|SIB|'])
+mutant('SIB-newly-created-uses-on_changed', ['C10'], [
+    (PS, "        self.status = self.status.on_created();", "        self.status = self.status.on_changed(false);"),
+], ['|SIB|'])
+mutant('T2-reader-overwrites-cache', ['C10'], [
+    (PS, "            Entry::Occupied(entry) => Ok(entry.get().clone()),\n            Entry::Vacant(entry) => {\n                entry.insert(code.clone());\n                Ok(code)\n            }", "            Entry::Occupied(mut entry) => {\n                entry.insert(code.clone());\n                Ok(code)\n            }\n            Entry::Vacant(entry) => {\n                entry.insert(code.clone());\n                Ok(code)\n            }"),
+], ['|T2|'])
+mutant('BU-parallel-build-when-only-state-empty', ['C10'], [
+    ('src/bundle.rs', "if !self.state.is_empty() || !self.contracts.is_empty() || !self.reverts.is_empty() {", "if !self.state.is_empty() {"),
+], ['|BU|'])
+mutant('BU-revert-size-not-accounted', ['C10'], [
+    ('src/bundle.rs', "                self.reverts_size += account.revert_size;\n", ""),
+], ['|BU|'])
+mutant('D1-created-checked-before-selfdestructed', ['C10'], [
+    ('src/account.rs', "        } else if account.is_selfdestructed() {\n            Self::Deleted\n        } else if account.is_created() {\n            Self::Created(&account.info)", "        } else if account.is_created() {\n            Self::Created(&account.info)\n        } else if account.is_selfdestructed() {\n            Self::Deleted"),
+], ['|D1|'])
+
+RW = 'src/beneficiary/reward.rs'
+HI = 'src/beneficiary/history.rs'
+mutant('K3-code-not-filled-when-missing', ['C09'], [
+    (I, "        if let Some(info) = &mut result &&\n            !info.is_empty_code_hash() &&\n            info.code.is_none()\n        {\n            info.code = Some(self.code_by_address(address, info.code_hash)?);\n        }\n", ""),
+], ['|K3|'])
+mutant('K3-backing-store-before-mv-code', ['C09'], [
+    (I, "        // 2. read from database\n        if result.is_none() {\n            let byte_code = self.backing_db.code_by_hash_ref(code_hash)?;\n            result = Some(byte_code);\n        }\n\n        self.read_set.insert(location, read_version);", "        if let Ok(byte_code) = self.backing_db.code_by_hash_ref(code_hash) {\n            result = Some(byte_code);\n        }\n\n        self.read_set.insert(location, read_version);"),
+], ['|K3|'])
+mutant('K2-basic-not-published-on-code-change', ['C09'], [
+    (I, "                (code_changed ||\n                    account_snapshot.is_none_or(", "                (account_snapshot.is_none_or("),
+], ['|D2|'])
+mutant('B1-defer-when-beneficiary-in-journal', ['C07'], [
+    (RW, "        if reward.is_zero() || evm.ctx_ref().journal().evm_state().contains_key(&beneficiary) {", "        if reward.is_zero() {"),
+], ['|B1|'])
+mutant('B1-zero-reward-skipped', ['C07'], [
+    (RW, "        if reward.is_zero() || evm.ctx_ref().journal().evm_state().contains_key(&beneficiary) {", "        if reward.is_zero() {\n            return Ok(())\n        }\n        if evm.ctx_ref().journal().evm_state().contains_key(&beneficiary) {"),
+], ['|B1|'])
+mutant('B2-reservoir-not-excluded', ['C07'], [
+    (RW, "        let effective_used = gas.used().saturating_sub(gas.reservoir());", "        let effective_used = gas.used();"),
+], ['|B2|'])
+mutant('B2-basefee-subtracted-before-london', ['C07'], [
+    (RW, "        let beneficiary_gas_price = if spec.is_enabled_in(SpecId::LONDON) {\n            effective_gas_price.saturating_sub(basefee)\n        } else {\n            effective_gas_price\n        };", "        let beneficiary_gas_price = effective_gas_price.saturating_sub(basefee);"),
+], ['|B2|'])
+mutant('B3-saturating-add-in-apply_to', ['C07'], [
+    (RW, "        if let Some(balance) = account.balance.checked_add(self.0) {\n            account.balance = balance;\n        }", "        account.balance = account.balance.saturating_add(self.0);"),
+], ['|B3|', '|B4|'])
+mutant('B6-beneficiary-read-from-committed-cache', ['C07'], [
+    (I, "                Err(blocker) => {\n                    self.blocking_txs.insert(blocker);\n                    self.blocked_by_beneficiary = true;", "                Err(blocker) => {\n                    result = self.backing_db.basic_ref(address)?;\n                    self.blocking_txs.insert(blocker);\n                    self.blocked_by_beneficiary = true;"),
+], ['|B6|'])
+mutant('B7-blocked-execution-recorded-exact', ['C07'], [
+    (S, "                let history_published = if conflict {\n                    beneficiary.record_estimate(&tx_version)\n                } else {\n                    beneficiary.record_execution(&tx_version, &speculative_result)\n                };", "                let history_published =\n                    beneficiary.record_execution(&tx_version, &speculative_result);"),
+], ['|B7|'])
+mutant('B8-record-accepts-same-incarnation', ['C07'], [
+    (HI, "        if incarnation <= state.incarnation {\n            return false;\n        }", "        if incarnation < state.incarnation {\n            return false;\n        }"),
+], ['|B8|'])
+mutant('B8-invalidate-ignores-incarnation', ['C07'], [
+    (HI, "        if state.incarnation != incarnation {\n            return false;\n        }\n        if matches!", "        if state.incarnation > incarnation {\n            return false;\n        }\n        if matches!"),
+], ['|B8|'])
+mutant('B8-fold-newest-first', ['C07'], [
+    (HI, "            .into_iter()\n            .rev()\n            .fold(self.base,", "            .into_iter()\n            .fold(self.base,"),
+], ['|B8|'])
+mutant('B8-unchanged-not-an-origin', ['C07'], [
+    (HI, "            origins.push(TxVersion::new(writer, incarnation));\n            match effect {\n                BeneficiaryEffect::Unchanged => {}", "            if effect != BeneficiaryEffect::Unchanged {\n                origins.push(TxVersion::new(writer, incarnation));\n            }\n            match effect {\n                BeneficiaryEffect::Unchanged => {}"),
+], ['|B8|'])
+mutant('B8-scan-includes-own-entry', ['C07'], [
+    (HI, "        for writer in (0..txid).rev() {", "        for writer in (0..=txid.min(self.entries.len() - 1)).rev() {"),
+], ['|B8|'])
+mutant('B5-anchor-read-inside-scope', ['C07'], [
+    (S, "            let beneficiary =\n                Beneficiary::new(self.env.beneficiary, beneficiary_anchor, self.block_size);", "            let beneficiary =\n                Beneficiary::new(self.env.beneficiary, None, self.block_size);\n            let _ = beneficiary_anchor;"),
+], ['|B5|'])
+mutant('N2-validate-drops-beneficiary-invalidate', ['C07', 'C02'], [
+    (S, "            if !beneficiary.invalidate(&tx_version) {\n                self.abort(AbortReason::ParallelError {\n                    txid,\n                    message: \"stale beneficiary history validation\",\n                });\n                return None;\n            }\n", ""),
+], ['|N2|'])
